@@ -1433,11 +1433,15 @@ def _make_c_or_py_source(ffi, module_name, preamble, target_file, verbose):
     recompiler.write_source_to_f(f, preamble)
     output = f.getvalue()
     try:
-        # what reading 'output' back in text mode gives (a C source with
-        # CRLF line ends reads back with LF line ends)
-        expected = io.StringIO(output, newline=None).read()
-        with open(target_file, 'r') as f1:
-            if f1.read(len(output) + 1) != expected:
+        # compare with what writing 'output' in text mode puts into the
+        # file, read back without newline translation: a C source with
+        # CRLF line ends must not look different every time, and a source
+        # whose line ends changed must not look up-to-date
+        expected = output
+        if os.linesep != '\n':
+            expected = output.replace('\n', os.linesep)
+        with open(target_file, 'r', newline='') as f1:
+            if f1.read(len(expected) + 1) != expected:
                 raise OSError
         if verbose:
             print("(already up-to-date)")
